@@ -15,7 +15,7 @@ from collections import defaultdict
 
 from .build import AnalysisBroken
 
-PURE_EXT = {'cos', 'sin', 'log2', 'exp2', 'pow', 'ceil', 'floor', 'rint', 'fabs', 'sqrt', 'log', 'exp', 'round',
+PURE_EXT = {'cosf', 'sinf', 'sqrtf', 'fabsf', 'log2f', 'exp2f', 'ceilf', 'floorf', 'rintf', 'cos', 'sin', 'log2', 'exp2', 'pow', 'ceil', 'floor', 'rint', 'fabs', 'sqrt', 'log', 'exp', 'round',
             'llvm.fma.v4f64', 'llvm.fmuladd.f64', 'llvm.fma.v2f64', 'llvm.fma.f64', 'llvm.x86.avx2.psrli.q',
             'llvm.x86.fma.vfmaddsub.pd.256', 'llvm.x86.avx512.vfmaddsub.pd.512', 'llvm.ctpop.i32', 'llvm.rint.f64',
             'llvm.x86.avx.addsub.pd.256', 'llvm.x86.fma.vfmaddsub.pd', 'llvm.fabs.f64', 'llvm.x86.avx.vzeroupper',
